@@ -42,6 +42,9 @@ type Solver struct {
 	TimeoutMs int
 	Log       io.Writer
 	lastExtra bool
+
+	SlowThreshold time.Duration
+	OnSlow        func(time.Duration)
 }
 
 func NewSolver(ctx *Ctx, kind string, timeoutMs int) (*Solver, error) {
@@ -227,7 +230,13 @@ func (s *Solver) readUntilSync() []string {
 // Check decides satisfiability of pc ∧ extra.
 func (s *Solver) Check(pc []*Term, extra ...*Term) Result {
 	t0 := time.Now()
-	defer func() { s.Time += time.Since(t0) }()
+	defer func() {
+		d := time.Since(t0)
+		s.Time += d
+		if d > s.SlowThreshold && s.SlowThreshold > 0 && s.OnSlow != nil {
+			s.OnSlow(d)
+		}
+	}()
 	s.NQueries++
 	s.DoneModel()
 	s.align(pc)
